@@ -197,6 +197,16 @@ def _ax_dd(t1, t2, last):
     return out
 
 
+def _ax_mm(t1, t2):
+    """x mod 2^a and x mod 2^b: 0 <= a <= b and 2^b | x  ->  2^a | x;  and  x mod 2^a == (x mod 2^b) mod 2^a  is implied"""
+    out = []
+    for (u, v) in ((t1, t2), (t2, t1)):
+        a, b = u.arg(1).arg(0), v.arg(1).arg(0)
+        out.append(('MM.div', z3.Implies(z3.And(a >= 0, a <= b, v == 0), u == 0)))
+        out.append(('MM.le', z3.Implies(z3.And(a >= 0, a <= b, u.arg(0) >= 0), u <= v)))
+    return out
+
+
 def _ax_mul(t):
     """x * pow2(k): introduce its bit length (S2) and sign facts"""
     out = []
@@ -296,6 +306,15 @@ def instantiate(formulas, rounds: int = 2, heavy: bool = True):
                 emit(('dd', i, j, last), lambda t1=t1, t2=t2: _ax_dd(t1, t2, last))
         for i, t in sorted(ipows.items()):
             emit(('ip', i), lambda t=t: _ax_ipow(t))
+        # pairs of remainders (mod pow2) of the same numerator: divisibility by the larger power gives the smaller
+        mods = [(i, t) for i, t in sorted(dms.items())
+                if t.decl().kind() == z3.Z3_OP_MOD and is_app_of(t.arg(1), pow2)]
+        for x in range(len(mods)):
+            for y in range(x + 1, len(mods)):
+                (i, t1), (j, t2) = mods[x], mods[y]
+                if t1.arg(0).get_id() != t2.arg(0).get_id():
+                    continue
+                emit(('mm', i, j), lambda t1=t1, t2=t2: _ax_mm(t1, t2))
         if not last:
             for f_ in work + axioms:
                 for i, x in _TZS.get(f_.get_id(), {}).items():
@@ -370,6 +389,10 @@ def selftest_schemas(limit: int = 40) -> dict:
                     bad['S6q'] = (x, j, k)
         for a in range(0, 6):
             for b in range(a, 8):
+                if x % P(b) == 0 and x % P(a) != 0:
+                    bad['MM.div'] = (x, a, b)
+                if x % P(a) > x % P(b):
+                    bad['MM.le'] = (x, a, b)
                 if x // P(b) != (x // P(a)) // P(b - a):
                     bad['DD.nest'] = (x, a, b)
                 if (x // P(a)) % P(b - a) != (x % P(b)) // P(a):
